@@ -35,12 +35,20 @@ func init() {
 	}, run: runRunnerCase})
 	faultCfg := flowCfg
 	faultCfg.faultPct, faultCfg.typeFaultPct, faultCfg.randomFns, faultCfg.domainFaults = 18, 10, true, true
+	faultCfg.wCall = 3
 	register("faults", family{gen: func(r *rand.Rand, tier string) *sx.Node {
 		return genRunnerCase(r, faultCfg, opsCfg{steps: 40, extraAfterEnd: 2})
 	}, run: runRunnerCase})
 	snapCfg := flowCfg
 	snapCfg.wJump, snapCfg.wStop, snapCfg.wCmd = 4, 0, 3
+	// a third of the snap cases are jump-heavy graphs with "tracking: never" on a third of the nodes and the visit
+	// counters of every node on every line: what a restored runner counts when it leaves the restored node shows
+	snapVisitCfg := snapCfg
+	snapVisitCfg.wJump, snapVisitCfg.visitLines, snapVisitCfg.maxNodes, snapVisitCfg.neverPct, snapVisitCfg.wCmd = 7, true, 4, 35, 1
 	register("snap", family{gen: func(r *rand.Rand, tier string) *sx.Node {
+		if r.Intn(3) == 0 {
+			return genRunnerCase(r, snapVisitCfg, opsCfg{steps: 30, extraAfterEnd: 2, hostWrites: true, vals: true, snapshots: true, runners: 2, storer: 1, snapFreq: 3})
+		}
 		return genRunnerCase(r, snapCfg, opsCfg{steps: 24, extraAfterEnd: 2, hostWrites: true, vals: true, snapshots: true, runners: 2, storer: 1})
 	}, run: runRunnerCase})
 	cmdCfg := flowCfg
@@ -60,6 +68,9 @@ func init() {
 	register("visits", family{gen: func(r *rand.Rand, tier string) *sx.Node {
 		return genRunnerCase(r, visitCfg, opsCfg{steps: 40, extraAfterEnd: 1, snapshots: true, runners: 1, snapFreq: 3})
 	}, run: runRunnerCase})
+	register("flow-witherrs", family{gen: func(r *rand.Rand, tier string) *sx.Node {
+		return genRunnerCase(r, flowCfg, opsCfg{steps: 40, extraAfterEnd: 2})
+	}, run: runWithErrs})
 	register("exprs", family{gen: genExprCase, run: runRunnerCase})
 	register("cmdargs", family{gen: genCmdArgsCase, run: runRunnerCase})
 	register("concurrent", family{gen: genConcurrent, run: runConcurrent})
@@ -76,7 +87,8 @@ func init() {
 		return genRunnerCase(r, layCfg, opsCfg{steps: 30, extraAfterEnd: 1})
 	}, run: runLayouts})
 	rndCfg := flowCfg
-	rndCfg.randomFns, rndCfg.wCmd, rndCfg.wStop, rndCfg.faultPct = true, 0, 0, 0
+	rndCfg.randomFns, rndCfg.wCmd, rndCfg.wStop, rndCfg.faultPct = true, 0, 0, 3 // failing calls: their errors must be the same in every execution
+	rndCfg.domainFaults = true
 	rndCfg.randomPct = 25
 	register("random", family{gen: func(r *rand.Rand, tier string) *sx.Node {
 		return genRunnerCase(r, rndCfg, opsCfg{steps: 30, extraAfterEnd: 1})
@@ -448,7 +460,8 @@ func (g *dgen) chain(t string) *sx.Node {
 // seed, drawing random numbers) in between, and once in a fresh child process - and returns the
 // common result, or (differ ...) when the executions are not identical (C09).
 func runRepeated(c *sx.Node) *sx.Node {
-	r1 := runRunnerCase(c).String()
+	n1, e1 := runRunnerCaseErrs(c)
+	r1 := n1.String()
 	// unrelated activity: another runner with another seed drawing from its own source
 	other := sx.Tag("runner", seedNode("other"+strconv.Itoa(len(r1)%7), 4), sx.Tag("storer", sx.Bool(false)), sx.Tag("init"), sx.Tag("hcmds"),
 		sx.Tag("sched"), sx.Tag("nrunners", sx.Int(1)),
@@ -456,23 +469,47 @@ func runRepeated(c *sx.Node) *sx.Node {
 			sx.List(sx.Tag("line", sx.List(sx.Tag("e", fnCall("dice", numLit(6))), sx.Tag("e", fnCall("random"))), sx.List(), sx.List()))))),
 		sx.Tag("readers", sx.Int(1)), layoutToSx(defaultLayout(), 1), sx.Tag("ops", sx.Tag("next", sx.Int(0), sx.Int(0))))
 	runRunnerCase(other)
-	r2 := runRunnerCase(c).String()
-	r3 := r1
+	n2, e2 := runRunnerCaseErrs(c)
+	r2 := n2.String()
+	r3, e3 := r1, e1
 	if os.Getenv("VERIF_NO_CHILD") == "" {
-		cmd := exec.Command(os.Args[0], "run", "flow")
+		// the child answers with (witherrs <result> (<message> ...)): C09 asks for identical errors too
+		cmd := exec.Command(os.Args[0], "run", "flow-witherrs")
 		cmd.Env = append(os.Environ(), "VERIF_WORKERS=1")
 		cmd.Stdin = strings.NewReader(c.String() + "\n")
 		var out bytes.Buffer
 		cmd.Stdout = &out
 		if err := cmd.Run(); err != nil {
 			r3 = "(\"CHILD-FAILED\")"
-		} else {
+		} else if w, perr := sx.Parse(strings.TrimSpace(out.String())); perr != nil || w.TagName() != "witherrs" {
 			r3 = strings.TrimSpace(out.String())
+		} else {
+			r3 = w.L[1].String()
+			e3 = []string{}
+			for _, m := range w.L[2].L {
+				e3 = append(e3, m.Text())
+			}
 		}
 	}
-	if r1 == r2 && r2 == r3 {
+	sameErrs := strings.Join(e1, "\x00") == strings.Join(e2, "\x00") && strings.Join(e2, "\x00") == strings.Join(e3, "\x00")
+	if r1 == r2 && r2 == r3 && sameErrs {
 		n, _ := sx.Parse(r1)
 		return n
+	}
+	if r1 == r2 && r2 == r3 {
+		// same outcomes, different error messages: report the first message that differs
+		msg := func(e []string, i int) *sx.Node {
+			if i < len(e) {
+				return sx.Str(e[i])
+			}
+			return sx.Str("<none>")
+		}
+		for i := 0; ; i++ {
+			a, b, d := msg(e1, i), msg(e2, i), msg(e3, i)
+			if a.String() != b.String() || b.String() != d.String() || i >= len(e1) {
+				return sx.Tag("differ", sx.Tag("errtext", a), sx.Tag("errtext", b), sx.Tag("errtext", d))
+			}
+		}
 	}
 	a, _ := sx.Parse(r1)
 	b, _ := sx.Parse(r2)
@@ -483,11 +520,24 @@ func runRepeated(c *sx.Node) *sx.Node {
 	return sx.Tag("differ", a, b, d)
 }
 
-var cmdNames = []string{"walk", "say", "iffy", "settings", "jumpy", "caller", "declared", "localise", "enumerate", "cases", "ifelse", "wálk", "set_up", "x"}
+// runWithErrs: the result of a runner case together with the messages of the errors Next returned
+// (used by runRepeated for its child process).
+func runWithErrs(c *sx.Node) *sx.Node {
+	n, e := runRunnerCaseErrs(c)
+	ms := make([]*sx.Node, len(e))
+	for i, m := range e {
+		ms[i] = sx.Str(m)
+	}
+	return sx.Tag("witherrs", n, sx.List(ms...))
+}
+
+var cmdNames = []string{"walk", "say", "iffy", "settings", "jumpy", "caller", "declared", "localise", "enumerate", "cases", "ifelse", "wálk", "set_up", "x", "àvis", "Šárka"}
 var cmdWords = []string{"left", "3", "-3", "0.5", "-12.25", "007", "true", "false", "True", "inf", "NaN", "1e3", ".5", "5.", "+5", "0x10", "-", "--1",
 	"1.2.3", "né", "日本", "a,b", "x=1", "#tag", "a/b", "it's", "\"q\"", "1_000", "tru", "falsey", "-0", "00", "9999999999999999999999",
-	"４２", "-٣.٥", "1२", "٣", "1.२", "²", "1e", "1.", "-.5", "1.5.", "TRUE", "False", "t", "f", "1,5"}
-var cmdSeps = []string{" ", " ", "  ", "\t", " \t ", "   "}
+	"４２", "-٣.٥", "1२", "٣", "1.२", "²", "1e", "1.", "-.5", "1.5.", "TRUE", "False", "t", "f", "1,5",
+	// characters whose UTF-8 encoding holds the bytes 0x85 / 0xA0 (U+0085 and U+00A0 are spaces; the bytes are not)
+	"voilà", "Å", "Šárka", "ą", "元", "先生", "😅", "хорошо", "Πυ", "3à", "à3", "trueà"}
+var cmdSeps = []string{" ", " ", "  ", "\t", " \t ", "   ", " ", " ", "\u3000", "\u00a0", " \u2003"}
 
 // genCmdArgsCase: generic commands written as raw text (C17): names incl. keyword-prefixed ones, words
 // from mixed alphabets, any spacing, inline expressions of every type; every name is registered as
@@ -733,14 +783,14 @@ func runConcurrent(c *sx.Node) *sx.Node {
 
 // brokenScripts are refused by NewDialogueRunner, each at a different point of the load.
 var brokenScripts = []string{
-	"title: A\n---\n-> a\n    x\n    -> b\n        y\n \t  z\n===\n",       // tab/space mix inside a nested block
-	"title: A\n---\nline\n===\n    junk\n",                                   // indented input after the last node
-	"title: A\n---\n-> a\n    <<if>>\n        q\n===\n",                      // syntax error inside an indented block
-	"title: A\n---\n-> a\n        deep\n    <<set $x to >>\n",                 // no end of node, half-closed indentation
-	"",                                                                          // nothing at all
-	"title: A\n---\n<<jump>>\n-> o\n    -> p\n        -> q\n            r",     // error, then end of input deep inside
-	"title: A\n---\n-> a\n\t-> b\n\t\tc\n\t  d\n===\n",                        // tabs then blanks
-	"title: A\n---\n    indented first line\n        deeper\n===\n===\n",         // stray second delimiter
+	"title: A\n---\n-> a\n    x\n    -> b\n        y\n \t  z\n===\n", // tab/space mix inside a nested block
+	"title: A\n---\nline\n===\n    junk\n",                           // indented input after the last node
+	"title: A\n---\n-> a\n    <<if>>\n        q\n===\n",              // syntax error inside an indented block
+	"title: A\n---\n-> a\n        deep\n    <<set $x to >>\n",        // no end of node, half-closed indentation
+	"", // nothing at all
+	"title: A\n---\n<<jump>>\n-> o\n    -> p\n        -> q\n            r", // error, then end of input deep inside
+	"title: A\n---\n-> a\n\t-> b\n\t\tc\n\t  d\n===\n",                     // tabs then blanks
+	"title: A\n---\n    indented first line\n        deeper\n===\n===\n",   // stray second delimiter
 }
 
 func firstDiffLine(a, b string) string {
